@@ -608,6 +608,13 @@ func dencoStructural(c *Ctx, r2, r3, r4, r5 string) {
 		if ok {
 			ok = !pathExists(single[0].Parent(), single[0], lastInstr(header), nil, isOneOf(wild[0]))
 		}
+		// … and the single-parameter alternative is examined for EVERY candidate too: no flag computed during the literal
+		// walk ("the literals consumed the whole path") rules it out — the candidate's position lies before the consumed text
+		if header != nil && len(header.Succs) == 2 && len(header.Succs[0].Instrs) > 0 {
+			first := header.Succs[0].Instrs[0]
+			skippedSingle := first != ssa.Instruction(single[0]) && pathExists(single[0].Parent(), first, lastInstr(header), nil, isOneOf(single[0]))
+			c.obI(r5, single[0], "single-parameter-tried-for-every-candidate", !skippedSingle, "every candidate of the backtracking loop is asked whether its node has a single-parameter edge", "an iteration of the backtracking loop can move on without asking IsSingleParam: a ':name' route reachable only by backtracking is not found")
+		}
 		c.obI(r5, single[0], "wildcard-tried-for-every-candidate", ok, "for every candidate node of the backtracking loop, the wildcard alternative is examined whenever the single-parameter alternative did not return a match", "an iteration can move to the next candidate without testing IsWildcardParam")
 	}
 	// every parameter attempt extends the parameters this invocation was given — never what an earlier, failed attempt
